@@ -123,7 +123,39 @@ def correspond(ctx):
     finally:
         P.Path.intersect = saved_int
     c.compare(lines, [m.strip() for m in common.driver(lines)], impl)
-    return [c]
+
+    # ---- Path.area: number of chords that replace an Arc (seg2lines) ---------------------------------------
+    c2 = Corr('Path.area/arc chord count')
+    lines, impl = [], []
+    r = ctx.rng('corr/chords')
+
+    class StubArc(P.Arc):
+        """an Arc (isinstance) of prescribed length; radius/delta are decoys.  point() counts its calls: seg2lines
+        evaluates num_lines + 1 points"""
+        def __init__(self, L):
+            self.L = L
+            self.start, self.end = 0j, 2 + 0j
+            self.radius, self.rotation, self.large_arc, self.sweep = 1 + 3j, 0.0, False, True
+            self.center, self.theta, self.delta = 1 + 0j, 180.0, -77.0
+            self.calls = 0
+
+        def length(self, *a, **k):
+            return self.L
+
+        def point(self, t):
+            self.calls += 1
+            return 2 * t + 1j * t * (1 - t)
+    for it in range(ctx.n(120, 1500)):
+        L = r.randint(1, 80) / 8.0
+        chord = r.choice([0.125, 0.25, 0.5, 1.0, 0.375, 2.0])
+        arc = StubArc(L)
+        path = P.Path(arc, P.Line(2 + 0j, 0j))
+        path.area(chord_length=chord)
+        lines.append('numlines %s %s' % (Fr(L), Fr(chord)))
+        impl.append(str(arc.calls - 1))
+        c2.count('chord=%s' % chord)
+    c2.compare(lines, [m.strip() for m in common.driver(lines)], impl)
+    return [c, c2]
 
 
 def _shoelace(pts):
@@ -211,13 +243,24 @@ def sample(ctx, budget=1.0, hint=None, broken=None):
             nontriv.add((cls, n))
             tol = 1e-4 * (abs(want) + 10)
         else:
-            rad = r.uniform(0.05, 0.2); c0 = complex(r.uniform(-3, 3), r.uniform(-3, 3)); ry = rad * r.choice([1, 1, 0.5, 2])
+            rad = r.uniform(0.05, 0.2); c0 = complex(r.uniform(-3, 3), r.uniform(-3, 3)); ry = rad * r.choice([1, 1, 0.5, 2, 4, 0.25, 8])
             sw = r.random() < 0.5
-            path = P.Path(P.Arc(c0 - rad, complex(rad, ry), 0, False, sw, c0 + rad), P.Arc(c0 + rad, complex(rad, ry), 0, False, sw, c0 - rad))
+            rot = r.choice([0, 0, 30, 90, -45.5])
+            w = complex(math.cos(math.radians(rot)), math.sin(math.radians(rot)))
+            path = P.Path(P.Arc(c0 - rad * w, complex(rad, ry), rot, False, sw, c0 + rad * w), P.Arc(c0 + rad * w, complex(rad, ry), rot, False, sw, c0 - rad * w))
             want = math.pi * rad * ry * (1 if sw else -1)
-            nontriv.add((cls, sw))
-            tol = 1e-3 * abs(want)
-            chord = rad * 4e-2
+            nontriv.add((cls, sw, ry / rad > 1, rot != 0))
+            chord = rad * r.choice([4e-2, 1e-1, 2e-2])
+            # "within the chord-length approximation": each half ellipse is replaced by n = ceil(length/chord) chords at equal steps of
+            # the eccentric angle, so the polygon is the affine image of a regular 2n-gon: area = rx*ry*n*sin(pi/n), exactly.
+            # Fewer chords than that (a larger error) is a violation; the half perimeter comes from our own quadrature.
+            m = 4000
+            ang = np.linspace(0, math.pi, m + 1)
+            speed = np.sqrt((rad * np.sin(ang)) ** 2 + (ry * np.cos(ang)) ** 2)
+            half = float(np.sum((speed[:-1] + 4 * np.sqrt((rad * np.sin((ang[:-1] + ang[1:]) / 2)) ** 2 + (ry * np.cos((ang[:-1] + ang[1:]) / 2)) ** 2) + speed[1:]) * (math.pi / m) / 6))
+            n_lo = max(1, int(math.ceil(half * (1 - 1e-7) / chord)))
+            poly_lo = rad * ry * n_lo * math.sin(math.pi / n_lo)
+            tol = (math.pi * rad * ry - poly_lo) * 1.001 + 1e-12 * abs(want)
         desc = repr(path).replace('\n', ' ')
         rep = 'svgpathtools.%s.area()' % desc
         try:
